@@ -7,7 +7,6 @@ IMPORTS14 = 'From DV Require Import Base.MachInt Base.Corr Model.ChunkModel Gen.
 IMPORTS48 = 'From DV Require Import Base.MachInt Base.Corr Model.ChunkModel Gen.GenChunk Model.ParForModel Model.PlanModel Model.ForEachModel Model.C14Check Model.C48Check.'
 
 KEY_TAIL = 'static-nowait-tail-on-caller'
-KEY_OVERRIDE = 'explicit-chunk-small-range-ignores-maxThreads'
 
 
 def loops_harness():
